@@ -212,8 +212,8 @@ func c19OneTime(m *c19Meta, which int) {
 // c19Roundtrip: inode with arbitrary metadata -> toBytes -> inodeFromBytes -> same metadata.
 func c19Roundtrip(ft fileType) {
 	for which := 0; which < 4; which++ {
-		if ft != fileTypeRegularFile && which != 2 {
-			continue // each of the four timestamps in turn: the regular-file variant; others: mtime
+		if ft != fileTypeRegularFile && which != 2 && !vp.Thorough() {
+			continue // quick tier: each of the four timestamps in turn for the regular-file variant; others: mtime
 		}
 		m := c19MetaIn("i")
 		c19OneTime(&m, which)
